@@ -89,13 +89,13 @@ def td_proposal(cfg):
 def gen(rng, kind=None, allow_annealer=True):
     kind = kind or rng.choice(['family', 'family', 'family', 'joint', 'td'])
     pt = rng.random() < 0.5
-    nt = rng.choice([2, 3, 4]) if pt else 1
+    nt = rng.choice([1, 2, 2, 3, 3, 4]) if pt else 1
     cfg = dict(kind=kind, pt=pt, ntemps=nt, nchains=rng.choice([1, 2]), si=rng.choice([1, 2, 3]) if pt else 1,
                blobs=rng.random() < 0.35, sigma=rng.choice([0.5, 1.0, 2.5]), seed=rng.randrange(1, 10 ** 6),
                T=rng.choice([4, 8, 15, 40]), k=rng.choice([1, 1, 2, 3]), start=rng.choice([1, 1, 2, 5]),
-               annealer=None, mixseed=rng.randrange(10 ** 6))
+               annealer=None, mixseed=rng.randrange(10 ** 6), preused=rng.random() < 0.3)
     if pt:
-        cfg['betas'] = [round(b, 4) for b in numpy.geomspace(1.0, rng.choice([0.02, 0.1]), nt)]
+        cfg['betas'] = [round(b, 4) for b in numpy.geomspace(1.0, rng.choice([0.02, 0.1]), nt)] if nt > 1 else [1.0]
         if allow_annealer and nt >= 3 and rng.random() < 0.35:
             cfg['annealer'] = dict(tau=rng.choice([20, 50, 1000]), nu=rng.choice([1, 2, 10]), tmax=rng.random() < 0.6)
     if kind == 'family':
@@ -109,7 +109,7 @@ def gen(rng, kind=None, allow_annealer=True):
 def params_of(cfg):
     if cfg['kind'] == 'family':
         return ['a', 'b']
-    if cfg['kind'] == 'joint':
+    if cfg['kind'] in ('joint', 'default', 'partial'):
         return ['a', 'b', 'c']
     return ['a%d' % i for i in range(1, cfg['td_n'] + 1)] + ['k']
 
@@ -127,13 +127,38 @@ def make_proposals(cfg):
     if cfg['kind'] == 'joint':
         props, _ = joint_mix(random.Random(cfg['mixseed']))
         return props
+    if cfg['kind'] == 'default':
+        return None                      # the sampler builds its default proposal for all parameters
+    if cfg['kind'] == 'partial':
+        return [P.Normal(['b'], cov=[0.3])]          # default proposal for the unlisted parameters a, c
     return [td_proposal(cfg)]
+
+
+def _touch(obj):
+    """draw once from an object's own (entropy-seeded) generator, as a user trying a proposal out would"""
+    try:
+        obj.random_generator.random()
+    except Exception:      # noqa
+        pass
+
+
+def preuse(props):
+    for p in props or []:
+        _touch(p)
+        for sub in getattr(p, '_proposals', []) if getattr(p, 'transdimensional', False) else []:
+            _touch(sub)
+            if getattr(sub, 'birth_distribution', None) is not None:
+                _touch(sub.birth_distribution)
+        if getattr(p, '_model_proposal', None) is not None:
+            _touch(p._model_proposal)
 
 
 def build(cfg, seed=None, model=None, pool=None, annealer_obj=None, **kw):
     model = model if model is not None else make_model(cfg)
     seed = cfg['seed'] if seed is None else seed
     props = make_proposals(cfg)
+    if cfg.get('preused'):
+        preuse(props)          # proposal instances that already drew numbers before the sampler got them
     if cfg['pt']:
         ann = annealer_obj
         if ann is None and cfg.get('annealer'):
@@ -166,6 +191,6 @@ def start_position(cfg, rng=None):
                 'b': numpy.array([rng.choice([1, 2, 5]) for _ in range(n)], dtype=int).reshape(shape)}
     out = {'a': numpy.array([round(rng.uniform(0.5, 1.5), 3) for _ in range(n)]).reshape(shape),
            'b': numpy.array([round(rng.uniform(0.3, 0.7), 3) for _ in range(n)]).reshape(shape)}
-    if cfg['kind'] == 'joint':
+    if cfg['kind'] in ('joint', 'default', 'partial'):
         out['c'] = numpy.array([round(rng.uniform(0.3, 2.0), 3) for _ in range(n)]).reshape(shape)
     return out
